@@ -27,15 +27,23 @@ Init == /\ \E ls \in LabelSeqs(2), kind \in {"frame", "index"} : objs = <<Obj(ki
 (*        [name |-> "derive", source, route]                                                                         *)
 RECURSIVE UntilDup(_, _)
 UntilDup(cur, ls) == IF ls = <<>> \/ Head(ls) \in ToSetS(cur) THEN cur ELSE UntilDup(Append(cur, Head(ls)), Tail(ls))
-FrameRoutes == {"to_frame", "to_frame_go", "iloc_all", "getitem_all", "rename", "relabel", "sort_columns", "reindex", "add0", "deepcopy", "pickle",
-                "columns_static", "columns_go", "row_series", "dtypes", "transpose2", "iter_series0", "set_index_less"}
+FrameRoutesCore == {"to_frame", "to_frame_go", "iloc_all", "getitem_all", "rename", "relabel", "sort_columns", "reindex", "add0", "deepcopy", "pickle",
+                    "columns_static", "columns_go", "row_series", "dtypes", "transpose2", "iter_series0", "set_index_less"}
+(* further class-preserving routes (the result has the source's column labels, possibly fewer rows): sub-containers handed out by the      *)
+(* iterators, row selections, row-wise transformations.  In the model they act exactly like "iloc_all", so the instances enumerate the   *)
+(* core only; recorded histories may use any of them.                                                                                    *)
+FrameRoutesMore == {"group_labels_first", "group_labels_items_last", "group_first", "group_items_last", "window_first", "window_items_last",
+                    "head1", "tail1", "loc_rows", "drop_row", "roll_rows", "shift0", "fillna0", "sort_index", "astype_same", "assign_same",
+                    "from_concat_self", "isna_neg", "mask_row", "dropna", "iter_frame_group_array"}
+FrameRoutes == FrameRoutesCore \cup FrameRoutesMore
 IndexRoutes == {"index_static", "index_go", "copy", "rename", "iloc_all", "sort", "union_self", "deepcopy", "pickle", "to_series"}
 ResultKind(src, route) ==
   CASE route \in {"columns_static", "columns_go"} -> "index"
     [] route \in {"row_series", "dtypes", "to_series", "iter_series0"} -> "series"
     [] OTHER -> src.kind
 ResultGo(src, route) ==
-  CASE route \in {"to_frame", "columns_static", "index_static", "row_series", "dtypes", "to_series", "iter_series0"} -> FALSE
+  CASE route \in {"to_frame", "columns_static", "index_static", "row_series", "dtypes", "to_series", "iter_series0",
+                  "group_first", "group_items_last"} -> FALSE          \* as built, iter_group hands out static Frames (iter_group_labels and iter_window keep the class)
     [] route \in {"to_frame_go", "columns_go", "index_go"} -> TRUE
     [] OTHER -> src.go                      \* class-preserving routes
 Sorted(ls) == SortSeq(ls, LAMBDA x, y : x < y)
@@ -69,7 +77,7 @@ Do(a) == /\ Enabled(objs, a)
 Next == \/ \E i \in 1..Len(objs), l \in Lab, sized \in BOOLEAN : Do([name |-> "append", target |-> i, label |-> l, sized |-> sized, outcome |-> "?"])
         \/ \E i \in 1..Len(objs), ls \in LabelSeqs(2) \ {<<>>}, via \in {"frame", "items", "series"} :
               (via = "series" => Len(ls) = 1) /\ Do([name |-> "extend", target |-> i, labels |-> ls, via |-> via, outcome |-> "?"])
-        \/ \E i \in 1..Len(objs) : \E route \in FrameRoutes \cup IndexRoutes : Do([name |-> "derive", source |-> i, route |-> route, outcome |-> "?"])
+        \/ \E i \in 1..Len(objs) : \E route \in FrameRoutesCore \cup IndexRoutes : Do([name |-> "derive", source |-> i, route |-> route, outcome |-> "?"])
 Spec == Init /\ [][Next]_vars
 
 (* ---- the property -------------------------------------------------------------------------------------------- *)
